@@ -66,6 +66,9 @@ def to_str(I, ctx, val, spec=None, conv=-1):
             return I.call(ctx, m, [val], {})
     if isinstance(val, ExcVal):
         return FmtStr([("exc", val)])
+    from .values import Opaque
+    if isinstance(val, Opaque) and val.attrs.get("str") is not None and not spec and conv != ord("r"):
+        return val.attrs["str"](ctx)       # a token with a declared text form
     return FmtStr([("str", val)])
 
 
